@@ -517,7 +517,7 @@ def run_kani_unit(u, tier, scratch, pid, known):
                 if is_known:
                     play = []      # a recorded finding: no need to search for its input again
                 else:
-                    _, rc2, out2, wall2, to2 = run_kani_harness(u, h, workdir, cargo_args, min(1800, 3 * h.get("timeout_s", u.get("timeout_s", 600))), playback=True)
+                    _, rc2, out2, wall2, to2 = run_kani_harness(u, h, workdir, cargo_args, h.get("playback_timeout_s", u.get("playback_timeout_s", min(1800, 3 * h.get("timeout_s", u.get("timeout_s", 600))))), playback=True)
                     k2 = parse_kani(out2)
                     ob["playback_run_s"] = round(wall2, 1)
                     play = k2["playback"] if (not to2 and k2["verdict"] is not None and "CBMC failed" not in out2 and "run out of memory" not in out2) else []
